@@ -419,6 +419,10 @@ func readHeader(in *io.Reader) (manifest []byte, mac []byte, err error) {
 		*in = io.MultiReader(bytes.NewReader(extraBytes), *in)
 	}
 
+	// The manifest and MAC are slices of the pooled buffer, which is given back when this function returns: copy them out
+	manifest = bytes.Clone(manifest)
+	mac = bytes.Clone(mac)
+
 	return manifest, mac, nil
 }
 
